@@ -702,3 +702,63 @@ func localFactsUpTo(in ssa.Instruction, root *ssa.Function) []condFact {
 	}
 	return out
 }
+
+// helperOutcomePasses: cond is (a test on) the result of an in-package helper;
+// every path through the helper that ends in a return consistent with the
+// outcome (cond == taken) passes an instruction satisfying target.
+func helperOutcomePasses(cond ssa.Value, taken bool, target func(ssa.Instruction) bool) bool {
+	p := curProg
+	if p == nil {
+		return false
+	}
+	var call *ssa.Call
+	idx := 0
+	nilTest, wantNil := false, false
+	tv := cond
+	if b, ok := cond.(*ssa.BinOp); ok && (b.Op == token.EQL || b.Op == token.NEQ) && (isNilConst(b.Y) || isNilConst(b.X)) {
+		nilTest = true
+		wantNil = (b.Op == token.EQL) == taken
+		tv = b.X
+		if isNilConst(b.X) {
+			tv = b.Y
+		}
+	}
+	switch x := tv.(type) {
+	case *ssa.Call:
+		call = x
+	case *ssa.Extract:
+		if cl, ok := x.Tuple.(*ssa.Call); ok {
+			call, idx = cl, x.Index
+		}
+	}
+	if call == nil || call.Call.IsInvoke() {
+		return false
+	}
+	sc := call.Call.StaticCallee()
+	if sc == nil || sc.Blocks == nil || !p.inPkg(sc) {
+		return false
+	}
+	n := 0
+	for _, r := range allReturns(sc) {
+		res := retResults(r)
+		if idx >= len(res) {
+			return false
+		}
+		v := res[idx]
+		if nilTest {
+			cl := classifyNil(v)
+			if (cl == retNil && !wantNil) || (cl == retNonNil && wantNil) {
+				continue
+			}
+		} else if k, ok := v.(*ssa.Const); ok && k.Value != nil && k.Value.Kind() == constant.Bool && constant.BoolVal(k.Value) != taken {
+			continue
+		}
+		n++
+		ret := r
+		ok, _ := MustPassOpt(sc.Blocks[0], 0, nil, target, PathOpts{ExitOK: true, Fail: func(in ssa.Instruction) bool { return in == ssa.Instruction(ret) }})
+		if !ok {
+			return false
+		}
+	}
+	return n > 0
+}
